@@ -59,6 +59,23 @@ Judge_file_rt(c) ==
            When("C04.pipeout", c.kind_out = "pipe", Subset(c.calls_out, {"write", "flush", "seekable"})),
            When("C04.seqin", c.kind_in = "seq", rd.ok /\ Subset(c.calls_in, {"read"})) >>
 
+\* op = "file_ind": a file assembled from the spec's independent writer (GenFile) is offered to reader and block_reader
+\*  c.file, c.hs, c.inflate, c.expect <<V>> (from GenFile), c.read [ok, recs, codec], c.br [ok, blocks]
+Judge_file_ind(c) ==
+  LET pf == ParseFile(c.file, c.hs, c.inflate) IN
+  IF ~pf.ok \/ ("expect" \in DOMAIN c /\ ~VEqSeq(pf.records, c.expect)) THEN << Cl("H.assembly", "fail") >>   \* the offered file must itself be layout-valid
+  ELSE << Tri("C05.accept.reader", c.read.ok /\ VEqSeq(c.read.recs, pf.records)),
+          When("C05.accept.codec", c.read.ok, c.read.codec = pf.codec),
+          Tri("C05.accept.block_reader",
+              /\ c.br.ok /\ Len(c.br.blocks) = Len(pf.blocks)
+              /\ \A i \in 1..Len(pf.blocks) : /\ c.br.blocks[i].off = pf.blocks[i].off /\ c.br.blocks[i].size = pf.blocks[i].size
+                                              /\ c.br.blocks[i].n = pf.blocks[i].count /\ VEqSeq(c.br.blocks[i].recs, pf.blocks[i].recs)
+              /\ Tiles(c.br.blocks, pf.hend, Len(c.file)) /\ SumCounts(c.br.blocks) = Len(pf.records)) >>
+
+\* op = "is_avro": c.data bytes, c.result BOOLEAN | c.raised
+Judge_is_avro(c) ==
+  << Tri("C05.magic", c.ok /\ (c.result <=> (Len(c.data) >= 4 /\ SubSeq(c.data, 1, 4) = Magic))) >>
+
 \* ---- C06: truncated and sync-corrupted files -----------------------------------------------------
 \* op = "cuts": c.file, c.hs, c.inflate; c.pool <<V>> (distinct projected records seen);
 \*   c.cuts  << <<k, ended (0|1), ys>> >>  outcome of fastavro.reader on file[0..k)   (ys = pool indices of the records yielded, in order)
